@@ -229,6 +229,11 @@ def run_check(cd, tier, seed, write=True):
                     n = max(200, n // 3)           # the sanitizer build is several times slower
             elif pol.startswith('pb'):
                 n = min(n, 6000)
+            # notrace=1: executions outside the algorithm-level model (e.g. a payload without observable windows); they are
+            # validated by the property monitors only
+            monly = bool(params.get('notrace'))
+            params = {k: v for k, v in params.items() if k != 'notrace'}
+            plabel = 'monly-' + label if monly else label
             args = list(cd.harness_args) + ['prog=' + prog] + ['%s=%s' % kv for kv in params.items()]
             if pol.startswith('pb'):
                 # exhaustive enumeration of all schedules with at most K preemptions (n = cap); one process per program
@@ -237,7 +242,7 @@ def run_check(cd, tier, seed, write=True):
             files, summ = core.run_harness(b, args + ['pol=' + pol], n * mult, seed, tag=cd.pid + 'rnd')
             n_exec += n * mult
             for f in files:
-                all_files.append((f, '%s %s %s' % (label, pol, prog)))
+                all_files.append((f, '%s %s %s' % (plabel, pol, prog)))
         if pbjobs:
             from concurrent.futures import ThreadPoolExecutor
 
@@ -258,8 +263,10 @@ def run_check(cd, tier, seed, write=True):
     # ---- 5. validation -----------------------------------------------------------------------------
     # merge into at most NCPU files per binary kind (one JVM per file)
     merged = []
-    for kind in ('plain', 'asan'):
-        fs = [f for f, o in all_files if (o.startswith('asan')) == (kind == 'asan')]
+    def kind_of(o):
+        return 'monly' if o.startswith('monly') else ('asan' if o.startswith('asan') else 'plain')
+    for kind in ('plain', 'asan', 'monly'):
+        fs = [f for f, o in all_files if kind_of(o) == kind]
         if not fs:
             continue
         k = min(core.NCPU, len(fs))
@@ -273,7 +280,7 @@ def run_check(cd, tier, seed, write=True):
 
     validated = 0
     if cd.trace_spec:
-        fnd, st = core.validate(files, cd.trace_spec[0], os.path.join(core.SPECS, cd.trace_spec[1]), tag=cd.pid + 'tr', timeout=900 if tier == 'quick' else 3600)
+        fnd, st = core.validate([f for f, k in all_files if k != 'monly'], cd.trace_spec[0], os.path.join(core.SPECS, cd.trace_spec[1]), tag=cd.pid + 'tr', timeout=900 if tier == 'quick' else 3600)
         for x in fnd:
             if x['kind'] == 'error':
                 raise Infra('trace validation failed: ' + x['text'])
